@@ -8,10 +8,10 @@ import (
 
 // TableSpec describes one table of the layout.
 type TableSpec struct {
-	Name   string   `json:"name"`
-	Splits [][]byte `json:"splits,omitempty"`
-	First  int      `json:"first"` // server of the first region; others round robin
-	IDs    []uint64 `json:"ids,omitempty"`
+	Name   string    `json:"name"`
+	Splits [][]byte  `json:"splits,omitempty"`
+	First  int       `json:"first"` // server of the first region; others round robin
+	IDs    []uint64  `json:"ids,omitempty"`
 	Rows   []RowSpec `json:"rows,omitempty"`
 }
 
@@ -31,12 +31,12 @@ type Layout struct {
 
 // ClientKnobs are the client options of a run.
 type ClientKnobs struct {
-	QueueSize     int   `json:"queue_size"`
-	FlushMS       int   `json:"flush_ms"` // -1 = 0 interval
-	ReadTimeoutMS int   `json:"read_timeout_ms"`
-	LookupMS      int   `json:"lookup_timeout_ms"`
-	Snappy        bool  `json:"snappy"`
-	Admin         bool  `json:"admin,omitempty"`
+	QueueSize     int  `json:"queue_size"`
+	FlushMS       int  `json:"flush_ms"` // -1 = 0 interval
+	ReadTimeoutMS int  `json:"read_timeout_ms"`
+	LookupMS      int  `json:"lookup_timeout_ms"`
+	Snappy        bool `json:"snappy"`
+	Admin         bool `json:"admin,omitempty"`
 }
 
 // CtxSpec says how the context of an operation ends.
@@ -59,8 +59,8 @@ type Op struct {
 	DelOne    bool                `json:"del_one,omitempty"`
 	SkipBatch bool                `json:"skip_batch,omitempty"`
 	Exists    bool                `json:"exists,omitempty"`
-	TS        uint64              `json:"ts,omitempty"`       // explicit timestamp (0 = latest)
-	Dur       int                 `json:"dur,omitempty"`      // durability
+	TS        uint64              `json:"ts,omitempty"`  // explicit timestamp (0 = latest)
+	Dur       int                 `json:"dur,omitempty"` // durability
 	TTLMS     int                 `json:"ttl_ms,omitempty"`
 	Prio      uint32              `json:"prio,omitempty"`
 	MaxVer    uint32              `json:"max_ver,omitempty"`
@@ -71,15 +71,15 @@ type Op struct {
 	Batch     []Op                `json:"batch,omitempty"`
 	Dup       [][2]int            `json:"dup,omitempty"` // batch: slot j repeats the call object of slot i
 	// scan
-	Start    []byte `json:"start"`
-	Stop     []byte `json:"stop"`
-	Reversed bool   `json:"reversed,omitempty"`
-	NumRows  uint32 `json:"num_rows,omitempty"`
-	Partial  bool   `json:"partial,omitempty"`
-	CloseAt  int    `json:"close_at,omitempty"` // call Close after this many Next calls (0 = never, -1 = before the first)
-	RenewMS  int    `json:"renew_ms,omitempty"`
-	PauseMS  int    `json:"pause_ms,omitempty"` // pause between Next calls
-	ScanClose bool  `json:"scan_close,omitempty"` // hrpc.CloseScanner option
+	Start     []byte `json:"start"`
+	Stop      []byte `json:"stop"`
+	Reversed  bool   `json:"reversed,omitempty"`
+	NumRows   uint32 `json:"num_rows,omitempty"`
+	Partial   bool   `json:"partial,omitempty"`
+	CloseAt   int    `json:"close_at,omitempty"` // call Close after this many Next calls (0 = never, -1 = before the first)
+	RenewMS   int    `json:"renew_ms,omitempty"`
+	PauseMS   int    `json:"pause_ms,omitempty"`   // pause between Next calls
+	ScanClose bool   `json:"scan_close,omitempty"` // hrpc.CloseScanner option
 	// sleep
 	MS  int     `json:"ms,omitempty"`
 	Ctx CtxSpec `json:"ctx,omitempty"`
@@ -92,22 +92,22 @@ type Task struct {
 
 // Plan determines a run completely (together with the code).
 type Plan struct {
-	Profile   string            `json:"profile"`
-	Seed      uint64            `json:"seed"` // scheduler / server PRNG seed
-	Layout    Layout            `json:"layout"`
-	Client    ClientKnobs       `json:"client"`
-	Sched     SchedKnobs        `json:"sched"`
-	Scan      hb.ScanKnobs      `json:"scan"`
-	Permute   bool              `json:"permute_multi,omitempty"`
-	ChunkLen  int               `json:"chunk_len,omitempty"`
-	Tasks     []Task            `json:"tasks"`
-	Faults    []*Fault          `json:"faults,omitempty"`
-	ConnFaults []*ConnFault     `json:"conn_faults,omitempty"`
-	DialFaults map[int]string   `json:"dial_faults,omitempty"`
-	Rules     []*hb.Rule        `json:"rules,omitempty"`
+	Profile    string         `json:"profile"`
+	Seed       uint64         `json:"seed"` // scheduler / server PRNG seed
+	Layout     Layout         `json:"layout"`
+	Client     ClientKnobs    `json:"client"`
+	Sched      SchedKnobs     `json:"sched"`
+	Scan       hb.ScanKnobs   `json:"scan"`
+	Permute    bool           `json:"permute_multi,omitempty"`
+	ChunkLen   int            `json:"chunk_len,omitempty"`
+	Tasks      []Task         `json:"tasks"`
+	Faults     []*Fault       `json:"faults,omitempty"`
+	ConnFaults []*ConnFault   `json:"conn_faults,omitempty"`
+	DialFaults map[int]string `json:"dial_faults,omitempty"`
+	Rules      []*hb.Rule     `json:"rules,omitempty"`
 	// phases
-	StableMS int `json:"stable_ms,omitempty"` // liveness budget after stabilisation
-	Free     bool `json:"free,omitempty"`     // free mode (race leg)
+	StableMS int    `json:"stable_ms,omitempty"` // liveness budget after stabilisation
+	Free     bool   `json:"free,omitempty"`      // free mode (race leg)
 	Scenario string `json:"scenario,omitempty"`
 	// corruption (C11): probability per response / meta row, and budget
 	Corrupt     float64 `json:"corrupt,omitempty"`
